@@ -794,8 +794,20 @@ func findField(t types.Type, name string) (path string, ft types.Type, ok bool) 
 			}
 		}
 	}
+	// a field the contract names as the pinned tree did, renamed since: bound by position (same number of fields)
+	if pf, ok := pinnedFields[typeKey(t)]; ok && len(pf) == st.NumFields() {
+		for i, n := range pf {
+			if n == name {
+				f := st.Field(i)
+				return "." + f.Name(), f.Type(), true
+			}
+		}
+	}
 	return "", nil, false
 }
+
+// pinnedFields: field names of the module's struct types when the baseline was taken (type key -> names)
+var pinnedFields = map[string][]string{}
 
 func (e *Exec) selectField(env *specEnv, v SV, name string, x ast.Expr) (SV, error) {
 	if v.T == nil {
@@ -1400,6 +1412,27 @@ func (e *Exec) evalIsJoin(n *ast.CallExpr, env *specEnv) (SV, error) {
 			pointwise := Term{fmt.Sprintf("(forall ((%s Int)) (=> (and (<= 0 %s) (< %s %s)) (= (select %s %s) %s)))",
 				q, q, q, cnt.L[0].S, jf.Arr.S, CellIdx(jf.Off, Term{q, SInt}).S, el.L[0].S), SBool}
 			alts = append(alts, And(Eq(r.L[0], Term{res, SString}), Eq(jf.Len, cnt.L[0]), Eq(jf.Sep, sep.L[0]), pointwise))
+		}
+		// ... or, for up to three elements, r is literally e0 + sep + e1 + sep + e2 (what strings.Join returns for
+		// them): this is how a join written with a strings.Builder or by concatenation is recognised
+		for m := 0; m <= 3; m++ {
+			cat := StrLit("")
+			okm := true
+			for k := 0; k < m; k++ {
+				ek, err := e.evalSpec(n.Args[4], env.with(kid.Name, SV{T: types.Typ[types.Int], L: []Term{IntLit(int64(k))}}))
+				if err != nil || len(ek.L) != 1 {
+					okm = false
+					break
+				}
+				if k == 0 {
+					cat = ek.L[0]
+				} else {
+					cat = app(SString, "str.++", cat, sep.L[0], ek.L[0])
+				}
+			}
+			if okm {
+				alts = append(alts, And(Eq(cnt.L[0], IntLit(int64(m))), Eq(r.L[0], cat)))
+			}
 		}
 		return pureSV(Or(alts...)), nil
 	}
